@@ -214,6 +214,38 @@ def check(model, rep):
         rep.ob('R09.8', mv, 'legs solved against the new base', bot_w == ((newp, 1),),
                'move solves with the bottom pose  %s , not the requested new base  %s' % (_pshow(bot_w), newp), line=line)
     rep.floor('R09.8', 'paths of move ending in a leg solve', n_mv, 1)
+    # ---------------------------------------------------------------- R09.9
+    # FK(L) answers for the lengths it is GIVEN: every returning path runs one of the solvers.  A path that returns the stored pose because
+    # the requested lengths are "close to" the stored ones reports the pose of other lengths (and leaves getLens / joints at the old state).
+    rep.rule('R09.9', 'SP.FK runs a forward-kinematics solver on every returning path (a shortcut is taken only for lengths EXACTLY equal to the stored ones)')
+    from ..engine.paths import paths_of as _paths99
+    fk9 = sp.methods.get('FK')
+    if fk9 is None:
+        raise AnalysisError('anchor vanished: SP.FK')
+    SOLVERS = ('self._FKSolve', 'self._FKRaphson', 'fmr.SPFKinSpaceR', 'self.FKSolve', 'self.FKRaphson')
+    n99 = 0
+    try:
+        ps99 = _paths99(_flat_m0(sp, 'FK', stop=('_FKSolve', '_FKRaphson', '_IKHelper')).node, fk9.params)
+    except RuntimeError as ex:
+        raise AnalysisError('paths of SP.FK not summarised (%s)' % ex)
+    for pth in ps99:
+        if pth.kind != 'return':
+            continue
+        n99 += 1
+        solved = bool(pth.calls(lambda t: any(s_.split('.')[-1] in t for s_ in SOLVERS)))          # also through a selected / named solver
+        Lp = fk9.params[1]
+        exact = any(v_ and 'array_equal(' in k_ and Lp in k_ and 'self.lengths' in k_ for k_, v_ in pth.facts.items())
+        if solved or exact:
+            continue
+        conds = ['%s is %s' % (pth.fact_src.get(k_, k_)[:90], v_) for k_, v_ in sorted(pth.facts.items()) if Lp in k_ or 'lengths' in k_][:2]
+        rep.ob('R09.9', fk9, 'FK solves for the requested lengths on the path returning at line %s' % pth.ret_line, False,
+               'SP.FK can return without running a solver (when %s): the pose it hands back and the state it leaves are those of the lengths stored BEFORE the call, not of the '
+               'lengths requested - for targets inside that dead band the error exceeds the FK tolerance on small platforms' % (' and '.join(conds) or 'some condition holds'),
+               line=pth.ret_line)
+        break
+    else:
+        rep.ob('R09.9', fk9, 'every returning path of FK runs a solver', n99 >= 1, 'no returning path found')
+    rep.floor('R09.9', 'returning paths of SP.FK', n99, 2)
     # ---------------------------------------------------------------- R09.2
     rep.rule('R09.2', 'FK joint tables re-derived after every replacement of the plate-fixed joint coordinates (all paths, all public methods)')
     from ..engine import peval as _pe
